@@ -699,6 +699,15 @@ def run(ctx):
                % (' & '.join(mm_cases[0].cond_src())[-100:] if mm_cases else 'no such path'),
                construct='CallableSpec.__init__: is_math_mode')
 
+    # ---- R16y (C02 R02j): what a legacy args parser did not report is not a state change
+    ctx.rule('R16y', 'a macro given through a legacy args parser replaces the parsing state of what follows only by the state '
+                     'that parser reported (None otherwise), never by the state the node itself was parsed in: inside '
+                     '`[...]` that is the outer state, and the closing bracket would read as a plain character, unlike with '
+                     'the argument-string spelling (C02 R02j)', 1)
+    from . import c02 as _c02
+    from .. import core as _core2
+    _core2.run_proxied(ctx, _c02, 'R16y', ('R02j',))
+
     # ---- R16w: the fixed options of the parser a shim builds
     ctx.rule('R16w', 'the constant options a legacy method passes to the parser it builds (other than values equal to the '
                      'constructor\'s default) are exactly the reviewed ones that reproduce the pylatexenc-2 behaviour: '
